@@ -480,7 +480,29 @@ async fn random_script(s: &mut S, steps: usize) {
                     }
                 }
             }
-            92..=96 => {
+            92..=93 => {
+                // sync requests from a puppet: for a digest nobody knows, then for a block R stored
+                let j = *s.p.puppets().choose(&mut s.rng).unwrap();
+                if s.rng.gen_bool(0.5) {
+                    s.act("sync request for an unknown digest");
+                    let d = rand_digest(&mut s.rng);
+                    s.p.send(j, &ConsensusMessage::SyncRequest(d, s.p.name(j))).await;
+                    s.settle().await;
+                }
+                let known = s.all.iter().rev().find(|b| s.p.r_votes.iter().any(|v| v.hash == b.digest())).cloned();
+                if let Some(b) = known {
+                    s.act(format!("sync request for stored block r{}", b.round));
+                    let mark = evlog::len();
+                    s.p.send(j, &ConsensusMessage::SyncRequest(b.digest(), s.p.name(j))).await;
+                    s.settle().await;
+                    let answered = evlog::tail(mark).iter().any(|e| match &e.kind {
+                        Kind::FrameIn { frame } => frame.route.src == s.p.r && frame.route.dst == j && matches!(frame.cons(), Some(crate::evlog::CMsg::Propose(x)) if x.digest() == b.digest()),
+                        _ => false,
+                    });
+                    evlog::note(if answered { "C07:sync_probe_answered".to_string() } else { format!("C07:sync_probe_unanswered r{}", b.round) });
+                }
+            }
+            94..=96 => {
                 // replay
                 if let Some(m) = s.sent_msgs.choose(&mut s.rng).map(clone_msg) {
                     s.act("replay of an earlier message");
@@ -1244,6 +1266,15 @@ pub fn run(class: &str, seed: u64, p: &Params) -> RunResult {
                         out.actions.iter().rev().take(30).rev().cloned().collect(),
                     );
                 }
+            } else if what == "C07:sync_probe_answered" {
+                report.count("C07.sync_probes_answered", 1);
+            } else if let Some(x) = what.strip_prefix("C07:sync_probe_unanswered ") {
+                report.violate(
+                    "C07",
+                    "sync-request-for-stored-block-not-answered",
+                    format!("a peer asked the node for block {} which it had stored (it voted for it), and got no answer", x),
+                    out.actions.iter().rev().take(20).rev().cloned().collect(),
+                );
             } else if what == "C07:retry_observed" {
                 report.sit("C07:retry_observed");
                 report.count("C07.retries_observed", 1);
